@@ -477,6 +477,7 @@ class PFn(SFn2):
             if c == "false": return kf()
             a, b = self.fork(kt), self.fork(kf)
             if (a, b) == ("true", "false"): return c
+            if (a, b) == ("false", "true"): return "(negb %s)" % c
             return "(if %s then %s else %s)" % (c, a, b)
         return self.ev(t, atom)
 
